@@ -80,8 +80,12 @@ impl<'p> W<'p> {
                         used.push(*v);
                     }
                 });
+                // ... except the parameters of a function literal that IS the initialiser: `f :: fn f do … f … end`
+                // is well defined (the parameter is the innermost declaration) unless the body also calls the function
+                let self_used = used.contains(b);
+                let own_params: Vec<BId> = if let Expr::Lambda(fd) = init { fd.params.clone() } else { Vec::new() };
                 for u in used {
-                    if u != *b {
+                    if u != *b && (self_used || !own_params.contains(&u)) {
                         self.a.conflicts.insert(pair(*b, u));
                     }
                 }
